@@ -135,6 +135,39 @@ func reparseAPI(kind string) string {
 	return ""
 }
 
+// sameKind: the general parsers (ParseSource for sources, ParseFinalSource for final
+// sources) must send the printed form of a value back to a value of its own kind,
+// equal to it.  Both refuse leading and trailing white space by a documented rule of
+// their own, so such texts are left to the kind's own parser.
+func sameKind(v interface{}, ob addrObs) []string {
+	if strings.TrimSpace(ob.Str) != ob.Str {
+		return nil
+	}
+	var apis []string
+	switch ob.Kind {
+	case "local", "remote":
+		apis = []string{"source", "final"}
+	case "registry":
+		apis = []string{"source"}
+	case "registryfinal":
+		apis = []string{"final"}
+	}
+	var bad []string
+	for _, ga := range apis {
+		g, gerr, gpn := safeParse(ga, ob.Str)
+		name := map[string]string{"source": "ParseSource", "final": "ParseFinalSource"}[ga]
+		switch {
+		case gpn != nil:
+			bad = append(bad, fmt.Sprintf("%s panics on it: %v", name, gpn))
+		case gerr != nil:
+			bad = append(bad, fmt.Sprintf("%s refuses it: %v", name, gerr))
+		case !sameValue(v, g):
+			bad = append(bad, fmt.Sprintf("%s reads it as a different value (%T printing %q)", name, g, describe("", "", g, nil, nil).Str))
+		}
+	}
+	return bad
+}
+
 // policy: the documented transport policy, written against the accessors only.
 func policy(o addrObs) []string {
 	var bad []string
@@ -472,6 +505,11 @@ func runAddr(o *Opts) {
 					c.Viol = append(c.Viol, viol("C06", fmt.Sprintf("%s(%q) prints %q which parses to something printing %q (printing is not idempotent)", api, in, ob.Str, ob2.Str), sig...))
 				case !sameValue(v, v2):
 					c.Viol = append(c.Viol, viol("C06", fmt.Sprintf("%s(%q) prints %q which parses back to a different value", api, in, ob.Str), sig...))
+				default:
+					// "of the same kind": the general parsers classify the printed text as the kind it was printed from
+					for _, bad := range sameKind(v, ob) {
+						c.Viol = append(c.Viol, viol("C06", fmt.Sprintf("%s(%q) prints %q: %s", api, in, ob.Str, bad), sig...))
+					}
 				}
 			}
 			// two accepted values: equal iff same print
@@ -635,6 +673,10 @@ func runAddr(o *Opts) {
 			c.Viol = append(c.Viol, viol("C06", fmt.Sprintf("%s prints %q which does not parse back: %v", what, ob.Str, err2), sig...))
 		case !sameValue(v, v2):
 			c.Viol = append(c.Viol, viol("C06", fmt.Sprintf("%s prints %q which parses back to a different value (printing %q)", what, ob.Str, describe("", "", v2, nil, nil).Str), sig...))
+		default:
+			for _, bad := range sameKind(v, ob) {
+				c.Viol = append(c.Viol, viol("C06", fmt.Sprintf("%s prints %q: %s", what, ob.Str, bad), sig...))
+			}
 		}
 	}
 	var bases []string
